@@ -6,10 +6,10 @@ CFG = {
              "0-3 extra layers with colour/lib, glyphs with advance, unicodes, note, image, guidelines, anchors, contours, components, "
              "object libs, data and images), half of them saved by norad (Font::save) and read by tools/indep_ufo.py (xml.etree + plistlib, "
              "strict well-formedness) into a generic tree in which the driver must find every value under the specification's names "
-             "(glif part: Ufo3.specRead), half written by the independent writer with randomised legal surface syntax (attribute order, "
+             "(glif part: Ufo3.specRead; one save in four goes over a pre-existing richer UFO or a directory of foreign files; glyph-name pairs that map to one file name, with non-ASCII capitals, are forced into a layer in one font in six and contents.plist must name one file per glyph), half written by the independent writer with randomised legal surface syntax (attribute order, "
              "quoting, white space, comments outside the root, character references, element order, key order, integer/real spelling, "
              "DOCTYPE on plists, default layer anywhere in layercontents.plist) plus at most one rare spelling per case, loaded by "
-             "Font::load and dumped through public getters: values must equal the description, default layer first, the others in "
+             "Font::load (3 in 8: Font::load_requested_data with none().default_layer(true) / all().default_layer(true) / filter_layers(name of the default layer), compared with what was requested of the description, default layer under the name the writer gave it) and dumped through public getters: values must equal the description, default layer first, the others in "
              "file order, the six transformation coefficients with the specification's affine meaning. 750 + 750 cases quick, "
              "12 000 + 12 000 thorough. non-trivial = the description holds at least one glyph; distinct by input tokens"),
     "exhaustive": {"quick": False, "thorough": False},
